@@ -2358,6 +2358,25 @@ def known_witnesses(ctx):
     return out
 
 
+def balance_shards(cases, shard=60):
+    """common.run_shards cuts the ENCLOSURE cases, in the order given, into files of 60 that are checked in parallel; the wall time
+    of the check is that of the slowest file.  Order them so that every file gets the same estimated cost (size of the goal --
+    76-dimensional sums, exact 76 x 76 determinants -- plus a surcharge per integral): longest-first into the lightest bin."""
+    exact = [c for c in cases if c.kind != "ENCLOSURE"]
+    encl = [c for c in cases if c.kind == "ENCLOSURE"]
+    if not encl:
+        return cases
+    nb = -(-len(encl) // shard)
+    bins, load = [[] for _ in range(nb)], [0] * nb
+    weight = lambda c: len(c.expr) + 3000 * c.expr.count("_cdf")
+    for c in sorted(encl, key=weight, reverse=True):
+        k = min((b for b in range(nb) if len(bins[b]) < shard), key=lambda b: load[b])
+        bins[k].append(c)
+        load[k] += weight(c)
+    # the heavy exact cases (76 x 76 determinants in DECISION form, if any) keep their spread as well
+    return exact + [c for b in bins for c in b]
+
+
 # ------------------------------------------------------------------------------------------------
 def run(ctx):
     import cuqi
@@ -2382,15 +2401,7 @@ def run(ctx):
     scalar_falsy_cases(ctx, cuqi, state, cases, stats)
     scalar_boundary_reassign_cases(ctx, cuqi, state, cases, stats)
     scalar_sibling_cases(ctx, cuqi, state, cases, stats)
-    # spread the expensive cases (76 x 76 exact determinants) over the shards so that they are evaluated in parallel
-    heavy = [c for c in cases if "/densefull/dim" in c.cell]
-    light = [c for c in cases if "/densefull/dim" not in c.cell]
-    cases = []
-    for i, c in enumerate(light):
-        if i % 45 == 0 and heavy:
-            cases.append(heavy.pop())
-        cases.append(c)
-    cases += heavy
+    cases = balance_shards(cases)
     return Result(cases=cases, rule=RULE, extra={"c04_stats": stats, "c04_state": {k: v for k, v in state.items() if k != "witness"}},
                   assumptions=["lnGamma at shapes that are not integers or half-integers enters as a certificate value from scipy.special.gammaln, cross-checked against libm lgamma to 1e-12",
                                "the difference operator matrices of cuqi.operator (subject of C20) are re-derived by the model and compared entry-wise through D(x-loc); the oracle for the MRFs takes the operator's matrix as given",
